@@ -2,6 +2,7 @@ import DadiVerif.Lemmas.ModelDSL
 import DadiVerif.Lemmas.ModelPerm
 import DadiVerif.Lemmas.ModelUnits
 import DadiVerif.Lemmas.ModelUnitsRat
+import DadiVerif.Lemmas.ModelBoundary
 import DadiVerif.Generated.Models
 import DadiVerif.Model.ModelPairs
 /-!
@@ -58,10 +59,28 @@ theorem nest_equalSelection : Pairs.equalSelection.all (fun p => nestOK table si
 theorem nest_composite : Pairs.composite.all (fun p => nestOK table sigs p.a p.b p.args) = true := by decide +kernel
 theorem nest_branch :
     Pairs.branch.all (fun p => nestOKAt table sigs p.a p.argsA p.path p.b p.argsB) = true := by decide +kernel
+/-- the models whose trace has a comparison (round 5) -/
+def branchModels : List Name :=
+  [nm! "Demographics2D.bottlegrowth_2d", nm! "Demographics2D.bottlegrowth_split", nm! "Demographics2D.bottlegrowth_split_mig",
+   nm! "DemogSelModels.bottlegrowth_2d_sel", nm! "DemogSelModels.bottlegrowth_2d_sel_single_gamma",
+   nm! "DemogSelModels.bottlegrowth_split_sel", nm! "DemogSelModels.bottlegrowth_split_sel_single_gamma",
+   nm! "DemogSelModels.bottlegrowth_split_mig_sel", nm! "DemogSelModels.bottlegrowth_split_mig_sel_single_gamma"]
+/-- one pass over the symbolic run of every model: argument wiring (round 2), branch boundaries and which models branch (round 5) -/
+theorem table_wiring_boundary :
+    table.all (fun m => match symbolicRun table sigs m.name (m.paramNames.map .param) with
+                        | some t => wiringOK (integrators sigs) t && boundaryTr (integrators sigs) t
+                                    && (branchCount t == 1 || branchModels.contains m.name)
+                        | none => false) = true := by decide +kernel
 theorem table_wiring :
     table.all (fun m => match symbolicRun table sigs m.name (m.paramNames.map .param) with
                         | some t => wiringOK (integrators sigs) t
-                        | none => false) = true := by decide +kernel
+                        | none => false) = true := by
+  rw [List.all_eq_true]
+  intro m hm
+  have h := List.all_eq_true.mp table_wiring_boundary m hm
+  cases hs : symbolicRun table sigs m.name (m.paramNames.map .param) with
+  | none => rw [hs] at h; cases h
+  | some t => rw [hs] at h; simp only [Bool.and_eq_true] at h; exact h.1.1
 theorem swap_symmetric : Pairs.symmetric.all (fun p => swapOK table sigs swapRules12 p.name p.args) = true := by
   decide +kernel
 end C15Facts
@@ -477,6 +496,118 @@ example : (findModel table (nm! "Demographics2D.bottlegrowth_split_mig")).map (m
     ∧ (findModel table (nm! "portik_models_2d.vic_anc_asym_mig")).map (modelRefExplicitOK table sigs) = some true := by
   decide +kernel
 
+/-! ## Round 5 — value-dependent branches: both branches of a comparison mean the same on its boundary -/
+namespace C15Facts
+theorem table_boundary : table.all (modelBoundaryOK table sigs) = true := by
+  rw [List.all_eq_true]
+  intro m hm
+  have h := List.all_eq_true.mp table_wiring_boundary m hm
+  unfold modelBoundaryOK
+  cases hs : symbolicRun table sigs m.name (m.paramNames.map .param) with
+  | none => rw [hs] at h; cases h
+  | some t => rw [hs] at h; simp only [Bool.and_eq_true] at h; exact h.1.2
+/-- a model outside `branchModels` has a straight-line trace -/
+theorem table_straight (m : Model) (hm : m ∈ table) (hb : branchModels.contains m.name = false) :
+    ∃ t, symbolicRun table sigs m.name (m.paramNames.map .param) = some t ∧ branchCount t = 1 := by
+  have h := List.all_eq_true.mp table_wiring_boundary m hm
+  cases hs : symbolicRun table sigs m.name (m.paramNames.map .param) with
+  | none => rw [hs] at h; cases h
+  | some t =>
+      rw [hs] at h
+      simp only [Bool.and_eq_true, Bool.or_eq_true, beq_iff_eq, hb, Bool.false_eq_true, or_false] at h
+      exact ⟨t, rfl, h.2⟩
+end C15Facts
+
+/-- **branch boundaries**: a model body that branches on a comparison between parameters — `if T >= Ts: … else: …`, or a
+    conditional expression `nu2 = nuEu if nuEu0 == nuEu else nuEu_func`, which the translator renders as the statement in both
+    forms under an `ite` — is exercised by the comparison only on one side at a time.  For every model of the table and every
+    comparison `if c` in its trace (`IsNode`), in every lawful interpretation that also satisfies `BoundaryLawful` (`x-x = 0`,
+    `x*0 = 0*x = 0`, `0/x = 0`, `1**x = 1`, `exp 0 = 1`, and every primitive gives the same result for a size function that is
+    constant and for the constant), at every valuation **on the boundary** of `c` (its two sides have the same value) with
+    invertible sizes: the `then` formula and the `else` formula have the same meaning (in each, a nested `if` on the same
+    comparison is decided accordingly), so whichever branch the comparison selects there, the model means what the other
+    formula means there.  A guard that tests the wrong variable (`nu3 = nuAs if nuEu0 == nuEu else nuAs_func`: on the boundary
+    `nuEu0 = nuEu` the `else` formula is the size function `nuAs_func`, the `then` formula the constant `nuAs`) falsifies it. -/
+theorem C15_branch_boundary (m : Model) (hm : m ∈ table) :
+    ∃ t, symbolicRun table sigs m.name (m.paramNames.map .param) = some t ∧
+      ∀ c a b, IsNode t c a b → ∀ I : Interp, Lawful I (integrators sigs) → BoundaryLawful I → ∀ ρ : Name → I.S,
+        OnBoundary I ρ c → SizesInvertible I ρ →
+          runTr I ρ (prune c true a) = runTr I ρ (prune c false b)
+          ∧ runTr I ρ (.ite c a b) = runTr I ρ (prune c true a)
+          ∧ runTr I ρ (.ite c a b) = runTr I ρ (prune c false b) := by
+  have h := List.all_eq_true.mp C15Facts.table_boundary m hm
+  unfold modelBoundaryOK at h
+  cases hs : symbolicRun table sigs m.name (m.paramNames.map .param) with
+  | none => rw [hs] at h; cases h
+  | some t =>
+      rw [hs] at h
+      exact ⟨t, rfl, fun c a b hn I hI hB ρ hb hsz => boundaryTr_sound hI hB h hn ρ hb hsz⟩
+
+/-- what the statement covers today: the nine models whose trace has a comparison, and the comparisons (all `T >= Ts`, with
+    `Ts = 0` in the `bottlegrowth_2d` family, which delegates with a literal); every other model of the table has a
+    straight-line trace — a new value-dependent branch must be listed here -/
+theorem C15_branch_boundary_table :
+    (C15Facts.branchModels.map fun n =>
+        match symbolicRun table sigs n ((findModel table n).map (·.paramNames.map .param) |>.getD []) with
+        | some t => (n, (boundaryNodes (integrators sigs) t).map fun x => (x.1.op, x.1.lhs, x.1.rhs, x.2))
+        | none => (n, []))
+      = [(nm! "Demographics2D.bottlegrowth_2d", [(nm! ">=", .param (nm! "T"), .lit 0 1, true)]),
+         (nm! "Demographics2D.bottlegrowth_split", [(nm! ">=", .param (nm! "T"), .param (nm! "Ts"), true)]),
+         (nm! "Demographics2D.bottlegrowth_split_mig", [(nm! ">=", .param (nm! "T"), .param (nm! "Ts"), true)]),
+         (nm! "DemogSelModels.bottlegrowth_2d_sel", [(nm! ">=", .param (nm! "T"), .lit 0 1, true)]),
+         (nm! "DemogSelModels.bottlegrowth_2d_sel_single_gamma", [(nm! ">=", .param (nm! "T"), .lit 0 1, true)]),
+         (nm! "DemogSelModels.bottlegrowth_split_sel", [(nm! ">=", .param (nm! "T"), .param (nm! "Ts"), true)]),
+         (nm! "DemogSelModels.bottlegrowth_split_sel_single_gamma", [(nm! ">=", .param (nm! "T"), .param (nm! "Ts"), true)]),
+         (nm! "DemogSelModels.bottlegrowth_split_mig_sel", [(nm! ">=", .param (nm! "T"), .param (nm! "Ts"), true)]),
+         (nm! "DemogSelModels.bottlegrowth_split_mig_sel_single_gamma", [(nm! ">=", .param (nm! "T"), .param (nm! "Ts"), true)])]
+    ∧ ∀ m ∈ table, C15Facts.branchModels.contains m.name = false →
+        ∃ t, symbolicRun table sigs m.name (m.paramNames.map .param) = some t ∧ branchCount t = 1 :=
+  ⟨by decide +kernel, C15Facts.table_straight⟩
+
+/-- the conditional-expression form, as `tools/gen_Models.py` translates it (the statement in both forms under an `ite`, the
+    rest of the body in both branches): two populations that grow exponentially from `nu10` to `nu1` and from `nu20` to `nu2`,
+    a population without growth passed as a constant,
+    `a1 = nu1 if nu10 == nu1 else f1;  a2 = nu2 if <guard> else f2;  two_pops(phi, xx, T, a1, a2)` -/
+def exCondExprModel (guard : Cond) : Model :=
+  let p (s : Name) : Expr := .param s
+  let growth (n0 n1 : Name) : Expr := .lam (.mul (p n0) (.pow (.div (p n1) (p n0)) (.div .tvar (p (nm! "T")))))
+  let rest : Prog :=
+    .prim ⟨nm! "Integration.two_pops", [(nm! "phi", p (nm! "phi")), (nm! "xx", p (nm! "xx")), (nm! "T", p (nm! "T")),
+                                        (nm! "nu1", p (nm! "a1")), (nm! "nu2", p (nm! "a2"))]⟩
+      (.ret ⟨nm! "Spectrum.from_phi", [(nm! "phi", p (nm! "phi")), (nm! "ns", p (nm! "ns")),
+                                       (nm! "xxs", .tcons (p (nm! "xx")) (.tcons (p (nm! "xx")) .tnil))]⟩)
+  let second : Prog := .ite guard (.letE (nm! "a2") (p (nm! "nu2")) rest) (.letE (nm! "a2") (p (nm! "f2")) rest)
+  { name := nm! "example.two_growth", paramNames := [nm! "nu10", nm! "nu1", nm! "nu20", nm! "nu2", nm! "T"],
+    argNames := [nm! "params", nm! "ns", nm! "pts"],
+    body :=
+      .unpack [nm! "nu10", nm! "nu1", nm! "nu20", nm! "nu2", nm! "T"]
+      (.letE (nm! "xx") (.call1 (nm! "Numerics.default_grid") (p (nm! "pts")))
+      (.prim ⟨nm! "PhiManip.phi_1D", [(nm! "xx", p (nm! "xx"))]⟩
+      (.prim ⟨nm! "PhiManip.phi_1D_to_2D", [(nm! "xx", p (nm! "xx")), (nm! "phi_1D", p (nm! "phi"))]⟩
+      (.letE (nm! "f1") (growth (nm! "nu10") (nm! "nu1"))
+      (.letE (nm! "f2") (growth (nm! "nu20") (nm! "nu2"))
+      (.ite ⟨nm! "==", p (nm! "nu10"), p (nm! "nu1")⟩
+        (.letE (nm! "a1") (p (nm! "nu1")) second)
+        (.letE (nm! "a1") (p (nm! "f1")) second))))))) }
+
+/-- the boundary check is not vacuous on the conditional-expression form: with each guard on its own population it is
+    accepted (`nu10*(nu1/nu10)**(t/T)` at `nu1 = nu10` normalises to the constant `nu10`: `nu/nu = 1`, `1**x = 1`, `x*1 = x`, a
+    time-free size function is the constant), and the model is well-formed; with the second guard testing the *first*
+    population's sizes it is refused, although that model is still well-formed, well-wired and well-united -/
+example :
+    let good := exCondExprModel ⟨nm! "==", .param (nm! "nu20"), .param (nm! "nu2")⟩
+    let bad := exCondExprModel ⟨nm! "==", .param (nm! "nu10"), .param (nm! "nu1")⟩
+    modelBoundaryOK [good] sigs good = true ∧ wellFormed [good] sigs good = true
+    ∧ modelBoundaryOK [bad] sigs bad = false ∧ wellFormed [bad] sigs bad = true ∧ modelUnitsOK [bad] sigs true bad = true
+    ∧ (symbolicRun [good] sigs good.name (good.paramNames.map .param)).map branchCount = some 4 := by
+  decide +kernel
+
+/-- the hypotheses of `C15_branch_boundary` are satisfiable together -/
+example : Lawful unitInterp (integrators sigs) ∧ BoundaryLawful unitInterp ∧ SizesInvertible unitInterp (fun _ => ()) :=
+  ⟨⟨fun _ => rfl, fun _ => rfl, fun _ => rfl, fun _ _ _ _ _ _ => rfl⟩,
+   ⟨fun _ => rfl, fun _ => rfl, fun _ => rfl, fun _ => rfl, fun _ => rfl, rfl, fun _ _ _ _ => rfl, fun _ _ _ _ _ => rfl,
+    fun _ _ _ _ _ => rfl⟩, fun _ _ => rfl⟩
+
 /-! ## non-vacuity: concrete interpretations satisfying the hypotheses -/
 
 /-- a lawful interpretation over the integers (a literal `n/d` is read as `n`) that records the primitives applied (zero-duration integrations are the
@@ -532,6 +663,16 @@ example :
     sem traceInterp (fun _ => 1) table sigs (nm! "portik_models_2d.anc_sym_mig")
         [.param (nm! "nu1"), .param (nm! "nu2"), .param (nm! "m"), .param (nm! "T"), .lit 0 1]
       = some [nm! "PhiManip.phi_1D", nm! "PhiManip.phi_1D_to_2D", nm! "Integration.two_pops", nm! "Spectrum.from_phi"] := by
+  decide +kernel
+
+/-- …and on the boundary `T = Ts` the two branches of `bottlegrowth_split_mig` are the same genuine run: in the `then` branch the
+    one-population epoch has length `T - Ts = 0`, in the `else` branch the first two-population epoch has length `Ts - T = 0` -/
+example :
+    (symbolicRun table sigs (nm! "Demographics2D.bottlegrowth_split_mig")
+        [.param (nm! "nuB"), .param (nm! "nuF"), .param (nm! "m"), .param (nm! "T"), .param (nm! "Ts")]).map
+      (fun t => ((selectBranch [true] t).bind (runTr traceInterp (fun _ => 1)), (selectBranch [false] t).bind (runTr traceInterp (fun _ => 1))))
+      = some (some [nm! "PhiManip.phi_1D", nm! "PhiManip.phi_1D_to_2D", nm! "Integration.two_pops", nm! "Spectrum.from_phi"],
+              some [nm! "PhiManip.phi_1D", nm! "PhiManip.phi_1D_to_2D", nm! "Integration.two_pops", nm! "Spectrum.from_phi"]) := by
   decide +kernel
 
 /-- a typed interpretation: densities are their dimension, a primitive refuses a density of another dimension -/
